@@ -68,6 +68,13 @@ def run_harness(ctx, exe, lines, timeout=150, max_restarts=30, args=()):
             for j in range(start, len(lines)):
                 outs[j] = "NOT-RUN"
             break
+    # the harness' allocation-balance check (sc_memory_status before / after every case): reported as an incident of
+    # kind MEMORY for the case, the flag is removed from the output line so that the other comparisons are unaffected
+    for i, o in enumerate(outs):
+        if o and " MEMORY-STATUS-CHANGED" in o:
+            j = o.index(" MEMORY-STATUS-CHANGED")
+            incidents.append((i, "MEMORY", o[j + 1:]))
+            outs[i] = o[:j]
     return outs, incidents
 
 
